@@ -66,6 +66,10 @@ ANY_CUR_FROM_I = "any(ANCX(current_cells[k]) for k in range(i, len(current_cells
 ANY_CELLS = "any(ANCX(cells[k]) for k in range(0, len(cells)))"
 
 
+SORTED = "all(all(KEYF(%s[a]) < KEYF(%s[b]) for b in range(a + 1, len(%s))) for a in range(0, len(%s)))"
+UNREL = "all(all(not REL(%s[a], %s[b]) for b in range(a + 1, len(%s))) for a in range(0, len(%s)))"
+
+
 def register_compact(reg, coverage=True, canonical=False):
     """Loop contracts of compact.  `coverage` adds the C08 invariants (pointwise coverage of a fixed probe cell x),
     `canonical` the C09 invariants (sorted by the key the code sorts by, pairwise unrelated, no group skipped)."""
@@ -95,5 +99,20 @@ def register_compact(reg, coverage=True, canonical=False):
         inner.append(("ghost-emitted-is-faithful", "CR == (%s)" % ANY_RESULT))
         inner.append(("ghost-consumed-is-faithful", "CC == any(ANCX(current_cells[k]) for k in range(0, i))"))
         inner.append(("emitted-covers-exactly-what-was-consumed", "CR == CC"))
+    if canonical:
+        # C09: the working list is strictly increasing in the key the code sorts by, pairwise unrelated, and a pass
+        # that changes nothing has skipped no complete contiguous sibling group
+        outer.append(("sorted-by-key", SORTED % ("current_cells", "current_cells", "current_cells", "current_cells")))
+        outer.append(("pairwise-unrelated", UNREL % ("current_cells", "current_cells", "current_cells", "current_cells")))
+        outer.append(("unchanged-pass-left-no-group", "changed or all(not GROUPAT(current_cells, p) for p in range(0, len(current_cells)))"))
+        inner.append(("emitted-sorted-by-key", SORTED % ("result", "result", "result", "result")))
+        inner.append(("emitted-below-rest", "all(all(KEYF(result[a]) < KEYF(current_cells[b]) for b in range(i, len(current_cells))) "
+                                            "for a in range(0, len(result)))"))
+        inner.append(("emitted-pairwise-unrelated", UNREL % ("result", "result", "result", "result")))
+        inner.append(("emitted-unrelated-to-rest", "all(all(not REL(result[a], current_cells[b]) for b in range(i, len(current_cells))) "
+                                                   "for a in range(0, len(result)))"))
+        inner.append(("no-group-skipped-while-unchanged",
+                      "changed or (len(result) == i and all(result[k] == current_cells[k] for k in range(0, i)) and "
+                      "all(not GROUPAT(current_cells, p) for p in range(0, i)))"))
     reg.add(Contract(COMPACT, loops={0: LoopContract(invariant=outer),
                                      1: LoopContract(invariant=inner, ghost_init=ghost_init, ghost_step=ghost_step)}))
